@@ -3,17 +3,26 @@
    (hir_ty/src/lib.rs) and the assertion of replace_weak_tys.  Only the decision
    (accept / Mismatch diagnostic / silent rejection / panic) is modelled, not the
    weak-type rewriting of the expression table.  No proofs here. *)
-From Capy Require Import Common.Util Common.Ty Model.TyRel.
+From Capy Require Import Common.Util Common.Ty.
+From Capy Require Import Model.TyRel.
 
 Inductive expected_ty : Type :=
 | Concrete (t : ty)
 | ExpEnum
 | ExpSumType.
 
+Inductive binop : Type := OpAdd | OpEq.
+
 Inductive em_outcome : Type :=
 | Accept            (* returns true, no diagnostic *)
 | SilentReject      (* returns false without a diagnostic (unknown involved) *)
 | Mismatch.         (* TyDiagnosticKind::Mismatch is pushed, returns false *)
+
+Section WithFixes.
+Variable fx : fixes.
+Notation fit := (fit fx).
+Notation weak := (weak fx).
+Notation tmax := (tmax fx).
 
 Definition can_take (e : expected_ty) (found : ty) : bool :=
   match e with
@@ -84,7 +93,6 @@ Definition expect_return (m : enum_map) (found ret : ty) : result em_outcome :=
    BinaryOp::get_possible_output_ty = lhs.max(rhs); None or !can_perform(max) pushes
    BinaryOpMismatch; then replace_weak_tys on both operands (assertion = Crash 2).
    Two representative operators: `+` (arithmetic class) and `==` (equality class). *)
-Inductive binop : Type := OpAdd | OpEq.
 
 Definition can_perform (op : binop) (t : ty) : bool :=
   match op with
@@ -108,3 +116,5 @@ Definition binary_outcome (m : enum_map) (op : binop) (a b : ty) : result em_out
 Definition assign_outcome (value dest : ty) : result em_outcome :=
   if weak dest value then (if fit dest value then Ok Accept else Crash 2)
   else expect_match false value (Concrete dest).
+
+End WithFixes.
